@@ -76,4 +76,21 @@ def gClash : AGrammar :=
                ⟨"A", some "BP1", 2, [cs "Num", cs "Num"]⟩, ⟨"A", none, 1, [cs "Id"]⟩,
                ⟨"AB", none, 2, [cs "Num", cs "Id"]⟩, ⟨"AB", none, 2, [cs "Id", cs "Id"]⟩ ] }
 
+/-- `S: KA V; @vec V: V Num | myItem=Num;` — the single-element alternative has a camelCase name -/
+def gVecLabel : AGrammar :=
+  { loc := false, rn := false, start := "S",
+    terms := [⟨"KA", false, true⟩, ⟨"Num", true, true⟩],
+    nts := [⟨"S", true, false⟩, ⟨"V", true, true⟩],
+    prods := [ ⟨"S", none, 2, [kw "KA", ns "V"]⟩,
+               ⟨"V", none, 2, [ns "V", cs "Num"]⟩, ⟨"V", none, 1, [cs "Num" (some "myItem")]⟩ ] }
+
+/-- `S: KA V; @vec V: V Num | W | Num; W: KB W | Id;` — `@vec` accepted although `W` is another type -/
+def gVecAlt : AGrammar :=
+  { loc := false, rn := false, start := "S",
+    terms := [⟨"KA", false, true⟩, ⟨"KB", false, true⟩, ⟨"Num", true, true⟩, ⟨"Id", true, true⟩],
+    nts := [⟨"S", true, false⟩, ⟨"V", true, true⟩, ⟨"W", true, false⟩],
+    prods := [ ⟨"S", none, 2, [kw "KA", ns "V"]⟩,
+               ⟨"V", none, 2, [ns "V", cs "Num"]⟩, ⟨"V", none, 1, [ns "W"]⟩, ⟨"V", none, 1, [cs "Num"]⟩,
+               ⟨"W", none, 2, [kw "KB", ns "W"]⟩, ⟨"W", none, 1, [cs "Id"]⟩ ] }
+
 end Rustemo.Ast
